@@ -5,6 +5,7 @@ open Datatypes
 let leqb = PeanoNat.Nat.eqb
 let thr = ref 32
 let unsat_limit = ref 40
+let unsat_clause_limit = ref 400
 
 let build_fw (c : case) : nat Store.fw =
   let f = ref (Store.fw_new_with_labels leqb []) in
@@ -91,7 +92,7 @@ let validate_log (log : (nat * Prog.event) list) =
           (* confirmed by the verified reference solver (Dpll.solve_n, C15_dpll_complete) when small *)
           let cl = Stdlib.List.rev (try Hashtbl.find sessions k with Not_found -> []) in
           let nv = maxvar cl a in
-          if nv <= !unsat_limit && Stdlib.List.length cl <= 400 then
+          if nv <= !unsat_limit && Stdlib.List.length cl <= !unsat_clause_limit then
             (match Dpll.solve_n (nat_of_int nv) cl a with
              | None -> incr unsat_ok
              | Some _ -> incr unsat_bad)
